@@ -38,12 +38,21 @@ def analysisVerdict (spec : Json → Json → String) (inp impl : Json) : Verdic
   -- column alias lists (`AS t(a, b)`, `WITH t(a, b) AS`) are ignored
   let aliasList := (src.search (fun n => n.isKind "Alias")).any (fun a => !(a.get "Colnames").items.isEmpty) ||
     (src.search (fun n => n.isKind "CommonTableExpr")).any (fun c => !(c.get "Aliascolnames").items.isEmpty)
+  -- a qualifier that names no relation of the statement makes the parameter resolver search EVERY table
+  let quals := (src.search (·.isKind "RangeVar")).flatMap (fun rv => [(rv.get "Relname").strVal] ++ (Q.aliasOf rv).toList) ++
+    (src.search (·.isKind "RangeSubselect")).flatMap (fun rs => (Q.aliasOf rs).toList) ++
+    (src.search (·.isKind "CommonTableExpr")).map (fun c => (c.get "Ctename").strVal)
+  let unknownQual := (src.search (·.isKind "ColumnRef")).any (fun cr =>
+    match (cr.get "Fields").stringItems with
+    | [q, _] => !quals.contains q
+    | _ => false)
   { model := run.model, compare := !walkPanic && !reparseRejected impl, frag := if walkPanic then "out:walk-panic" else if reparseRejected impl then "out:reparse-rejected" else "in",
     specImpl := spec inp impl,
     trig := run.trig ++ (if ml then ["scopeLeak"] else []) ++ (if repeated then ["repeatedPlaceholder"] else []) ++
       (if exprCol then ["exprColumn"] else []) ++ (if needsQ then ["needsQuoting"] else []) ++
       (if resShared then ["reservedShared"] else []) ++ (if lenDrop then ["lengthDropped"] else []) ++
-      (if coalesceAlias then ["coalesceAlias"] else []) ++ (if aliasList then ["aliasListIgnored"] else []),
+      (if coalesceAlias then ["coalesceAlias"] else []) ++ (if aliasList then ["aliasListIgnored"] else []) ++
+      (if unknownQual then ["unknownQualifier"] else []),
     implProj := some (implProjection impl) }
 
 def c02 (kind : String) (inp impl : Json) : Verdict :=
